@@ -140,13 +140,24 @@ class Program:
         self.logger.info("Success !")
         return 0
 
-    def assemble(self, asm_file: str, sfc_file: Path) -> int:
+    def _use_mapping(self, mapping: str | None) -> None:
+        if mapping is not None:
+            address_mapping = {
+                "low": RomType.low_rom,
+                "low2": RomType.low_rom_2,
+                "high": RomType.high_rom,
+            }
+            self.resolver.rom_type = address_mapping[mapping]
+
+    def assemble(self, asm_file: str, sfc_file: Path, mapping: str | None = None) -> int:
         """
         Compile asmfile.
         :param asm_file:
         :param sfc_file:
+        :param mapping:
         :return: error code
         """
+        self._use_mapping(mapping)
         with open(sfc_file, "wb") as f:
             sfc_emitter = SFCWriter(f)
             return self.assemble_with_emitter(asm_file, sfc_emitter)
@@ -158,13 +169,7 @@ class Program:
         mapping: str | None = None,
         copier_header: bool = False,
     ) -> int:
-        if mapping is not None:
-            address_mapping = {
-                "low": RomType.low_rom,
-                "low2": RomType.low_rom_2,
-                "high": RomType.high_rom,
-            }
-            self.resolver.rom_type = address_mapping[mapping]
+        self._use_mapping(mapping)
         with open(ips_file, "wb") as f:
             ips_emitter = IPSWriter(f, copier_header)
             ips_emitter.begin()
